@@ -3,7 +3,7 @@
    Run by bin/check in the directory ocaml/ (the facts are re-extracted first). *)
 From Coq Require Import Extraction ExtrOcamlBasic List.
 From Coq.Strings Require Import Byte.
-From GV Require Import Base.Bytes Parser.Pre Facts.ParserConsts.
+From GV Require Import Base.Bytes Base.Tok Skel.Compose Parser.Pre Facts.ParserConsts.
 
 Definition m_strip := strip_non_mso_comments.
 Definition m_escamp := escape_attribute_ampersands named_entities.
@@ -12,4 +12,12 @@ Definition m_wrap := wrap_mj_text_content void_names.
 Definition m_preprocess := preprocess named_entities entity_table void_names.
 Definition m_byte_to_nat := Byte.to_nat.
 
-Extraction "model.ml" m_strip m_escamp m_entities m_wrap m_preprocess m_byte_to_nat.
+Definition m_lex := lex.
+Definition m_check_std (s : bytes) : bool := check_view Std (lex s).
+Definition m_check_mso (s : bytes) : bool := check_view Mso (lex s).
+Definition m_no_vml_outside (s : bytes) : bool := no_vml_outside Closed (lex s).
+
+Definition m_merge_check (a b : bytes) : bool :=
+  let xs := lex a in let ys := lex b in merge_check (S (List.length xs + List.length ys)) xs ys.
+
+Extraction "model.ml" m_merge_check m_strip m_escamp m_entities m_wrap m_preprocess m_byte_to_nat m_lex m_check_std m_check_mso m_no_vml_outside.
